@@ -21,6 +21,7 @@ type Frame struct {
 	NObj0    *Term
 	Declared bool
 	What     string
+	loop     *loopInfo // set for the frame of a Go loop: left behind when control leaves the loop
 }
 
 type frameField struct {
